@@ -373,6 +373,71 @@ def program_task(args) -> dict:
     return res
 
 
+def mode_task(args) -> dict:
+    """Worker: all mode programs under one output mode (one incremental cache per mode: several of these options
+    are part of every module's cache key)."""
+    name, payload, workdir = args[0], json.loads(args[1]), args[3]
+    mode, flags, summary = payload["mode"], payload["flags"], payload["summary"]
+    base = ["--warn-unused-ignores"]
+    runs = []
+    cache = os.path.join(workdir, "cache-mode-" + re.sub(r"[^a-z0-9]+", "_", mode))
+    for cls, src in payload["programs"]:
+        if _ALARM:
+            import signal
+            signal.alarm(240)
+        try:
+            r = corpus.run_tool(workdir, cache, src, base + flags, (), summary)
+            rec = r["rec"]
+            runs.append({"class": cls, "src": src, "status": r["status"], "stdout": r["stdout"], "stderr": r["stderr"],
+                         "blockers": rec.blockers, "tuples": [list(t) for t in rec.raw_tuples]})
+        except BaseException as e:  # noqa: BLE001
+            runs.append({"class": cls, "src": src, "crash": repr(e)[:200]})
+        finally:
+            if _ALARM:
+                signal.alarm(0)
+    return {"name": name, "src": args[1], "variants": [], "mode": mode, "flags": base + flags, "summary": summary, "mode_runs": runs}
+
+
+def judge_modes(ctx: Ctx, results: list[dict]) -> None:
+    """The exit-status clause checked directly on whole CLI runs in every rendering mode, against the *structured*
+    messages (severity field of the ErrorTuples the sink handed out; in JSON mode also the `severity` of the printed
+    records): 0 iff no error-severity message, 2 iff a blocker stopped the build, else 1."""
+    for res in results:
+        for run in res["mode_runs"]:
+            if "crash" in run or "INTERNAL ERROR" in run.get("stderr", "") or "Traceback" in run.get("stderr", ""):
+                ctx.dist("exit_status_by_mode", res["mode"] + ": crashed (not judged)")
+                continue
+            sev = [t[5] for t in run["tuples"]]
+            any_error = "error" in sev
+            json_mode = "--output" in res["flags"]
+            if json_mode:       # the printed records must tell the same story as the sink's tuples
+                recs = []
+                for line in (run["stdout"] + "\n" + run["stderr"]).split("\n"):
+                    if line.startswith("{"):
+                        try:
+                            recs.append(json.loads(line))
+                        except ValueError:
+                            pass
+                if recs or not run["tuples"]:
+                    any_error = any_error or any(r_.get("severity") == "error" for r_ in recs)
+            truth = 2 if run["blockers"] else (1 if any_error else 0)
+            status = run["status"]
+            ctx.case(("mode-run", res["mode"], run["class"], run["src"]), nontrivial=True)
+            ctx.dist("exit_status_by_mode", "%s / %s: status %d" % (res["mode"], run["class"], status))
+            if status != truth:
+                err_texts = [t[6] for t in run["tuples"] if t[5] == "error"]
+                observed = {"class": "exit-status", "status": status, "truth": truth, "output_json": json_mode,
+                            "program_class": run["class"], "no_error_severity_message": not any_error,
+                            "every_error_text_contains_note_marker": bool(err_texts) and all(NOTE_MARK in x for x in err_texts),
+                            "every_error_line_contains_note_marker": False}
+                report_capped(ctx, observed,
+                              "exit status %d but the structured messages give %d (blockers=%s, severities=%s) for a program with %s under `mypy %s%s`"
+                              % (status, truth, run["blockers"], sorted(set(sev)) or "none", run["class"], " ".join(res["flags"]),
+                                 "" if res["summary"] else " --no-error-summary"),
+                              {"kind": "mode-run", "src": run["src"], "flags": res["flags"], "summary": res["summary"], "status": status,
+                               "truth": truth, "messages": [[t[1], t[5], t[6], t[7]] for t in run["tuples"]], "stdout": run["stdout"][:2000]})
+
+
 def format_tuple(t: list, hide_codes: bool = False) -> str:
     """Errors.format_messages_default for a tuple with a file (no columns, not pretty) — used to tie the
     exit-status model's `format` to the real stdout."""
@@ -595,7 +660,7 @@ def classify_delta(probs: list[dict], texts: dict[str, str] | None = None) -> st
     return probs[0]["kind"]
 
 
-def real_runs(ctx: Ctx) -> None:
+def real_runs(ctx: Ctx, deep_modes: bool = False) -> None:
     t0 = time.time()
     cases = corpus.corpus_cases(ctx.rng)
     ncorp = ctx.pick(170, len(cases))
@@ -606,6 +671,12 @@ def real_runs(ctx: Ctx) -> None:
     tasks = []
     for i, (name, src) in enumerate(progs):
         tasks.append((name, src, ctx.rng.getrandbits(48), os.path.join(ctx.tmp, "w%d" % (i % nproc)), nvar, ctx.pick(0.04, 0.15), ctx.pick(6, 10)))
+    # the exit-status clause in every rendering mode: one task per mode, spread over the lanes (more programs per
+    # class when the exit-rule proof obligation is broken, or in the thorough tier)
+    mprogs = corpus.mode_programs(ctx.rng, 4 if (deep_modes or not ctx.quick()) else 1)
+    for i, (mode, mflags, summ) in enumerate(corpus.OUTPUT_MODES):
+        tasks.append(("modes:" + mode, json.dumps({"mode": mode, "flags": mflags, "summary": summ, "programs": mprogs}),
+                      0, os.path.join(ctx.tmp, "w%d" % (i % nproc)), 0, 0, 0))
     # one worker lane per scratch directory (its own incremental caches); every lane runs its programs in
     # separate worker processes (harness/c13/worker.py) that are restarted when one dies
     lanes = [[t for t in tasks if t[3].endswith("w%d" % k)] for k in range(nproc)]
@@ -615,7 +686,8 @@ def real_runs(ctx: Ctx) -> None:
     ctx.coverage["real_runs_wall_s"] = round(time.time() - t0, 1)
     by_name = {r["name"]: r for ch in results_chunks for r in ch}
     results = [by_name[t[0]] for t in tasks if t[0] in by_name]
-    judge_runs(ctx, results)
+    judge_modes(ctx, [r for r in results if "mode_runs" in r])
+    judge_runs(ctx, [r for r in results if "mode_runs" not in r and not str(r["name"]).startswith("modes:")])
 
 
 def _run_lane(tmp: str, k: int, lane: list) -> list[dict]:
@@ -940,7 +1012,7 @@ def main(ctx: Ctx) -> None:
                "NoOnlyOnceCollision, BelowManyErrorsThreshold (default: threshold -1), no error-code links")
     synthetic(ctx)
     clamp_and_exit(ctx)
-    real_runs(ctx)
+    real_runs(ctx, deep_modes=not proved)
     if not proved and not ctx.violations:
         ctx.violation("Lean development for C13 no longer builds", {"broken": ctx.broken_ties}, found_input=False)
 
@@ -964,6 +1036,16 @@ def replay(ctx: Ctx, path: str) -> int:
         return 0
     if kind == "exit":
         print(ctx.lean_driver(DRIVER, [json.dumps(["exit", det["lines"], det["blockers"]])])[0])
+        return 0
+    if kind == "mode-run":
+        work = os.path.join(ctx.tmp, "w")
+        r = corpus.run_tool(work, os.path.join(work, "cache"), det["src"], det["flags"], (), det.get("summary", False))
+        print("PROGRAM:\n" + det["src"])
+        print("$ mypy %s%s -c PROGRAM   -> exit %d" % (" ".join(det["flags"]), "" if det.get("summary") else " --no-error-summary", r["status"]))
+        print(r["stdout"] + r["stderr"])
+        sev = [t[5] for t in r["rec"].raw_tuples]
+        print("structured messages: severities %s, blocker=%s  => the clause demands exit %d"
+              % (sev, r["rec"].blockers, 2 if r["rec"].blockers else (1 if "error" in sev else 0)))
         return 0
     if kind in ("program", "metamorphic"):
         work = os.path.join(ctx.tmp, "w")
